@@ -1,6 +1,6 @@
 (* Runner.v — top of the executable model: dispatches one request line. *)
 From Coq Require Import String.
-From GS Require Import GoSem Text Dispatch DispatchHuman DispatchParsers DispatchScan DispatchRef DispatchConfig DispatchOutput.
+From GS Require Import GoSem Text Dispatch DispatchHuman DispatchParsers DispatchScan DispatchRef DispatchConfig DispatchOutput DispatchOptions.
 Open Scope N_scope.
 
 Definition first_some (l : list (option bytes)) : bytes :=
@@ -17,6 +17,7 @@ Definition dispatch (line : bytes) : bytes :=
                    dispatch_scan cmd args;
                    dispatch_ref cmd args;
                    dispatch_config cmd args;
-                   dispatch_output cmd args ]
+                   dispatch_output cmd args;
+                   dispatch_options cmd args ]
   | [] => err "empty"
   end.
